@@ -20,15 +20,15 @@ def cutIds (fault : Option EventId) : List EventId → List EventId
 
 def hitsIds (fault : Option EventId) (es : List EventId) : Bool := es.any (fun e => decide (fault = some e))
 
-def convPlan (fields : List Field) : List EventId := (fields.filter (·.conv)).map convId
-
 /-- every member of every field's validator chain, in field order -/
 def validatorPlan (fields : List Field) : List EventId :=
   fields.flatMap (fun f => (List.range f.validators).map (valId f))
 
-/-- construction: all converters whatever the switch says; then all validators iff enabled -/
+/-- construction: the declarative trace of the initializer specification (Spec/C02: pre-init hook, per field
+    its factory if the argument was left out and its converter, all validators iff enabled, post-init hook),
+    as callback identities -/
 def constructPlan (cls : Cls) (run : Bool) : List EventId :=
-  convPlan cls.fields ++ (if run then validatorPlan cls.fields else [])
+  (C02.expectedTrace (initCase cls run none).eff (initCase cls run none).call).map (·.id)
 
 /-- `validate(inst)`: all validators iff enabled -/
 def validatePlan (cls : Cls) (run : Bool) : List EventId :=
